@@ -185,8 +185,7 @@ def check(ctx):
     if len(cl) == 1 and isinstance(cl[0], ast.Call) and isinstance(cl[0].func, ast.Attribute) and cl[0].func.attr == 'split' \
             and [py.try_fold(a, m) for a in cl[0].args] == ['\n']:
         inner = cl[0].func.value
-        if isinstance(inner, ast.Call) and P.call_name(inner) == 're.sub' and P.src(inner.args[0]) == 'LINE_BREAK_RE' \
-                and py.try_fold(inner.args[1], m) == '\n' and P.src(inner.args[2]) == 'comment':
+        if line_break_sub(py, m, inner, 'comment') == 'LINE_BREAK_RE':
             try:
                 ok = rx.compare(rx.Language(regs['LINE_BREAK_RE'][0], regs['LINE_BREAK_RE'][1], 'fullmatch'),
                                 rx.Language('\r\n|\r|\n', 0, 'fullmatch')) is None
@@ -303,3 +302,16 @@ def _walk_sre(tree):
         elif str(op) == 'ATOMIC_GROUP':
             for x in _walk_sre(av):
                 yield x
+
+
+def line_break_sub(py, m, inner, text_param):
+    """name of the module-level pattern when `inner` is `re.sub(PAT, '\\n', text)` or `PAT.sub('\\n', text)`, else None (shared with C11)"""
+    if not isinstance(inner, ast.Call):
+        return None
+    if P.call_name(inner) == 're.sub' and len(inner.args) >= 3 and isinstance(inner.args[0], ast.Name) \
+            and py.try_fold(inner.args[1], m) == '\n' and P.src(inner.args[2]) == text_param:
+        return inner.args[0].id
+    if isinstance(inner.func, ast.Attribute) and inner.func.attr == 'sub' and isinstance(inner.func.value, ast.Name) and inner.func.value.id != 're' and len(inner.args) >= 2 \
+            and py.try_fold(inner.args[0], m) == '\n' and P.src(inner.args[1]) == text_param:
+        return inner.func.value.id
+    return None
